@@ -2,6 +2,9 @@
 each property, per tier.  See DESIGN.md section 6."""
 
 
+Broken = Exception  # replaced by check's Broken on import
+
+
 def tier(ctx, quick, thorough):
     return quick if ctx.tier == "quick" else thorough
 
@@ -32,6 +35,24 @@ def buffer_traces(ctx):
     ctx.trace_validate(trace, "buffer-drive")
 
 
+def repo_suite_traces(ctx):
+    """the repository's own test suite run with the tracing hooks on: every buffer transition it triggers is
+    validated by TLC against the Buffer specification (behaviour the tests exercise but do not assert)"""
+    import glob, os, subprocess
+    d = os.path.join(ctx.work, "suite")
+    os.makedirs(d, exist_ok=True)
+    env = dict(ctx.env, REDACT_VERIF_TRACE=os.path.join(d, "t"))
+    r = subprocess.run(["go", "test", "-tags", "verif", "-vet=off", "-count=1", "./..."], cwd="/repo", env=env,
+                       capture_output=True, text=True, timeout=1200)
+    if r.returncode != 0:
+        raise Broken("the repository's test suite fails with the verif tag on:\n" + (r.stdout + r.stderr)[-3000:])
+    out = os.path.join(ctx.work, "suite.ndjson")
+    with open(out, "wb") as fh:
+        for f in sorted(glob.glob(d + "/t.*")):
+            fh.write(open(f, "rb").read())
+    ctx.trace_validate(out, "repo-test-suite")
+
+
 def c07(ctx):
     ctx.tlc_replay("MCMarkers", "Markers.cfg", ["markers-replay"], consts=dict(MaxTok=tier(ctx, 5, 6)))
     n, tracen = tier(ctx, (30000, 5000), (400000, 40000))
@@ -48,12 +69,12 @@ def c10(ctx):
     ctx.trace_validate(trace, "escape-drive")
 
 
-def printer_slice(ctx, sl, hook="none", extra_consts=None, emit=True):
+def printer_slice(ctx, sl, hook="none", extra_consts=None, module="MCPrinter", cfg="Printer.cfg"):
     """MCPrinter on one slice: TLC runs the printer specification on every enumerated case, checks the
     model-level invariants, and every case is replayed on the real printer (byte-exact + the property's predicates)"""
     consts = dict(Slice='"%s"' % sl, HookKind='"%s"' % hook)
     consts.update(extra_consts or {})
-    return ctx.tlc_replay("MCPrinter", "Printer.cfg", ["printer-replay", "-prop", ctx.prop, "-hook", hook], consts=consts)
+    return ctx.tlc_replay(module, cfg, ["printer-replay", "-prop", ctx.prop, "-hook", hook], consts=consts)
 
 
 def printer_control_f3(ctx):
@@ -106,6 +127,107 @@ def c17(ctx):
         printer_slice(ctx, "qerrorf", hook="plain")
 
 
+POOL_KINDS_PLAIN = ["plain", "sprint", "badverb", "widthprec", "fprint", "builder", "markers", "probe-default", "w-outside", "panic-contained", "sprintfn"]
+
+
+def pool_histories_from_tlc(ctx, num, depth):
+    """model -> code: behaviours of the Pool specification (TLC -simulate) turned into histories of real calls:
+    every top-level printer lifetime of a behaviour becomes the call kind that makes the real printer live it"""
+    import glob, re, subprocess, os, json
+    cfg = ctx.write_cfg("Pool.cfg", dict(Printers="MCPrinters2", Arrays="MCArrays2", MaxNest=2,
+                                         Features='{"nested", "override", "wrap", "big"}'))
+    src = open(os.path.join(ctx.specw, cfg)).read().replace("SYMMETRY Sym\n", "")
+    open(os.path.join(ctx.specw, cfg), "w").write(src)
+    simdir = os.path.join(ctx.work, "sim")
+    os.makedirs(simdir, exist_ok=True)
+    cmd = ["timeout", "300", "tlc", "-workers", "1", "-metadir", os.path.join(ctx.work, "mdsim"), "-config", cfg,
+           "-simulate", "file=%s/b,num=%d" % (simdir, num), "-depth", str(depth), "-seed", str(ctx.seed), "MCPool.tla"]
+    r = subprocess.run(cmd, cwd=ctx.specw, env=ctx.tlc_env(), capture_output=True, text=True)
+    files = sorted(glob.glob(simdir + "/b_*"))
+    if not files:
+        raise Broken("TLC -simulate wrote no behaviour:\n" + r.stdout[-2000:])
+    hists = []
+    for fn in files:
+        acts = re.findall(r"^\\\* <(\w+)\(([^)]*)\)", open(fn).read(), re.M)
+        life, order, nested = {}, [], set()
+        for name, args in acts:
+            a = [x.strip().strip('"') for x in args.split(",")]
+            p = a[0]
+            if name == "Get":
+                life[p] = dict(flags=set())
+                order.append((p, life[p]))
+            elif p in life:
+                fl = life[p]["flags"]
+                if name == "NestedBegin":
+                    fl.add("lends")
+                    nested.add(id(life.get(a[1], {})))
+                    if a[1] in life:
+                        life[a[1]]["parent"] = life[p]
+                elif name == "Write" and a[1] == "TRUE":
+                    fl.add("big")
+                elif name == "Push":
+                    fl.add("override-" + a[1])
+                elif name == "Abandon":
+                    fl.add("abandoned")
+                    if "parent" in life[p]:
+                        life[p]["parent"]["flags"].add("nested-abandoned")
+                else:
+                    fl.add(name.lower())
+        h = []
+        for i, (p, lf) in enumerate(order):
+            if id(lf) in nested:
+                continue
+            fl = lf["flags"]
+            if "abandoned" in fl:
+                h.append("panic-propagates" if i % 2 == 0 else "sprintfn-panic")
+            elif "nested-abandoned" in fl:
+                h.append("nested-panic")
+            elif "lends" in fl:
+                h.append("nested-unsafe" if "override-unsafe" in fl else "nested")
+            elif "big" in fl:
+                h.append("big")
+            elif "setwrap" in fl:
+                h.append("errorf-ok" if "wrap" in fl and "misuse" not in fl else ("errorf-misuse" if "misuse" in fl else "errorf-none"))
+            elif any(x.startswith("override") for x in fl):
+                h.append("override")
+            else:
+                h.append(POOL_KINDS_PLAIN[(i + len(acts)) % len(POOL_KINDS_PLAIN)])
+        if h:
+            hists.append(h)
+    path = os.path.join(ctx.work, "hists.json")
+    json.dump(hists, open(path, "w"))
+    ctx.notes.append("%d behaviours of the Pool specification (TLC -simulate, depth %d) mapped to call histories" % (len(hists), depth))
+    return path
+
+
+def c12(ctx):
+    # the design: exhaustive over interleavings of printer lifetimes
+    ctx.tlc_only("MCPool", "Pool.cfg", workers=16, consts=dict(Printers="MCPrinters2", Arrays="MCArrays2", SYMMETRY="Sym2", MaxNest=2,
+                                                              Features='{"nested", "override", "wrap", "big"}'))
+    ctx.tlc_only("MCPool", "Pool.cfg", workers=16)
+    if ctx.tier == "thorough":
+        for ft in ('{"nested", "wrap"}', '{"nested", "big"}', '{"override", "wrap", "big"}'):
+            ctx.tlc_only("MCPool", "Pool.cfg", workers=16, consts=dict(Features=ft))
+        for d in ("take_keeps_buf", "free_keeps_wrapped", "nested_keeps_buf", "restore_forgets"):
+            st = ctx.tlc_only("MCPool", "Pool.cfg", workers=16, expect_ok=False,
+                              consts=dict(Printers="MCPrinters2", Arrays="MCArrays2", SYMMETRY="Sym2", Defect='"%s"' % d,
+                                          Features='{"nested", "override", "wrap"}'))
+            ctx.control("Pool specification with the seeded defect %s must violate an invariant" % d,
+                        (not st["ok"]) and "is violated" in st["text"])
+    # model -> code: behaviours replayed as call histories, probes compared with a fresh process
+    hists = pool_histories_from_tlc(ctx, tier(ctx, 300, 5000), 40)
+    trace = ctx.work + "/poolh.ndjson"
+    rep = ctx.harness(["pool-history", "-hist", hists, "-depth", str(tier(ctx, 1, 2)), "-trace", trace])
+    if (rep.get("extra") or {}).get("gets_of_recycled_printers", 0) == 0:
+        raise Broken("no printer was recycled during the histories: the pool was not exercised")
+    ctx.pool_trace_validate(trace, "pool-history")
+    # schedules: goroutines x random calls under the race detector, pool events validated
+    trace2 = ctx.work + "/pools.ndjson"
+    ctx.reports.append(ctx.harness_race(["pool-stress", "-g", "16", "-secs", str(tier(ctx, 3, 60)), "-trace", trace2,
+                                         "-maxev", str(tier(ctx, 30000, 120000))]))
+    ctx.pool_trace_validate(trace2, "pool-stress")
+
+
 def c04(ctx):
     cfgs, maxtok = tier(ctx, ("{1, 2, 3, 4, 5, 6, 7}", 3), ("{1, 2, 3, 4, 5, 6, 7}", 4))
     ctx.tlc_replay("MCFormat", "Format.cfg", ["format-replay", "-prop", "C04"], consts=dict(MaxTok=maxtok, ArgConfigs=cfgs))
@@ -119,6 +241,7 @@ def c14(ctx):
 def c01(ctx):
     buffer_model(ctx)
     buffer_traces(ctx)
+    repo_suite_traces(ctx)
     printer_slice(ctx, tier(ctx, "qbytes", "bytes"))
     if ctx.tier == "thorough":
         printer_slice(ctx, "smoke")
@@ -128,6 +251,7 @@ def c01(ctx):
 def c03(ctx):
     buffer_model(ctx)
     buffer_traces(ctx)
+    repo_suite_traces(ctx)
     printer_slice(ctx, tier(ctx, "qbytes", "bytes"))
     if ctx.tier == "thorough":
         printer_slice(ctx, "smoke")
@@ -143,20 +267,22 @@ def c09(ctx):
     writer_model(ctx)
     buffer_model(ctx)
     buffer_traces(ctx)
+    repo_suite_traces(ctx)
 
 
 def c08(ctx):
-    printer_slice(ctx, tier(ctx, "qcompose", "compose"))
+    printer_slice(ctx, tier(ctx, "qcompose", "compose"), module="MCCompose", cfg="Compose.cfg")
 
 
 def c16(ctx):
     for sl in tier(ctx, ["qcls", "wrap"], ["cls", "wrap", "panic", "smoke", "qbytes"]):
-        printer_slice(ctx, sl, extra_consts=dict(Routes="TRUE"))
+        printer_slice(ctx, sl, module="MCRoutes", cfg="Routes.cfg")
 
 
 def c13(ctx):
     buffer_model(ctx)
     buffer_traces(ctx)
+    repo_suite_traces(ctx)
 
 
 PRINTER_RULE = ("TLC runs the Printer specification (transcription of printArg/handleMethods/printValue/catchPanic/"
@@ -166,6 +292,21 @@ PRINTER_RULE = ("TLC runs the Printer specification (transcription of printArg/h
                 "and the property's predicate evaluated on the real output; distinct = distinct real outputs. ")
 
 PROPS = {
+    "C12": dict(run=c12, exhaustive=True, rule=(
+        "Pool.tla: printer lifetimes (Get, SetWrap, Write, override Push/Pop, %w Wrap/Misuse, nested printers borrowing the "
+        "buffer incl. re-allocation, Take, Free, Abandon on a propagating panic) of 2-3 printers interleaved in every order "
+        "(= all schedules of the goroutines owning them), with symmetry; invariants: pooled printers are pristine in every "
+        "field newPrinter does not re-initialise, no backing array is shared by two printers outside the borrow chain or by "
+        "a printer and a returned result. Binding: (1) TLC -simulate behaviours are mapped to histories of real calls "
+        "(each printer lifetime -> the call kind that produces it: plain, Safe/Unsafe, bad verb, %w ok/misuse/none, >64 KiB, "
+        "nested printers, contained/propagating panics...), replayed with GOMAXPROCS=1 so that the pool hands the same "
+        "object back, followed by 21 probes whose results are compared with those of a fresh process; additionally every "
+        "sequence of call kinds up to length 1 (quick) / 2 (thorough); (2) 16 goroutines issue random calls under the Go "
+        "race detector, every result compared with the fresh-process value; (3) the pool events recorded by the hooks "
+        "(get/put/drop with all printer fields) during (1) and (2) are validated by TLC against PoolTrace; distinct = "
+        "distinct histories"), assumptions=[
+        "the data-race clause is decided by the Go race detector on the executions whose pool events are trace-validated (DESIGN 8)",
+        "Width()/Precision() values are observed only when ok (stale values with ok=false are not an observable, DESIGN 11)"]),
     "C08": dict(run=c08, exhaustive=True, rule=PRINTER_RULE + (
         "C08: slice compose: for every payload p over {E2,80,B9,BA,'a',LF} up to 1 (quick) / 2 (thorough) bytes the redactable "
         "r = Sprint(p) is computed by the model (escaped forms, split lines), then printed again with 7 directives "
